@@ -34,11 +34,11 @@ THEOREMS = ['PbBss.C06.' + t for t in [
     # the EM loops of the directional mixture trainers (Model/TensorEm.lean): per-matrix externals with the class axis in
     # the core, get_pca with its reshapes, VMFMMTrainer / CWMMTrainer / CACGMMTrainer (M-step, E-step, any number of iterations)
     'mapCore_class_slices', 'getPca_slices',
-    'vmfmmMStep_slices', 'vmfmmPredict_slices', 'vmfmmFit_slices', 'vmfmmFit_slices_shaped', 'vmfmmFitPredict_slices',
+    'vmfmmMStep_slices', 'vmfmmPredict_slices', 'vmfmmStep_slices', 'vmfmmFit_slices', 'vmfmmFit_slices_shaped', 'vmfmmFitPredict_slices',
     'vmfmmTrainerFit_slices',
-    'cwmmMStep_slices', 'cwmmPredict_slices', 'cwmmFit_slices', 'cwmmFit_slices_shaped', 'cwmmFitPredict_slices_shaped',
+    'cwmmMStep_slices', 'cwmmPredict_slices', 'cwmmStep_slices', 'cwmmFit_slices', 'cwmmFit_slices_shaped', 'cwmmFitPredict_slices_shaped',
     'cwmmTrainerFit_slices_shaped',
-    'cacgmmMStep_slices', 'cacgmmPredict_slices', 'cacgmmFit_slices', 'cacgmmFit_slices_shaped', 'cacgmmFitPredict_slices',
+    'cacgmmMStep_slices', 'cacgmmPredict_slices', 'cacgmmStep_slices', 'cacgmmFit_slices', 'cacgmmFit_slices_shaped', 'cacgmmFitPredict_slices',
     'cacgmmTrainerFit_slices',
     # singleton leading axes
     'broadcastLead_slices', 'singleton_init_weights',
@@ -1228,7 +1228,18 @@ def _corr_em_mixtures(ctx, rng, add):
             add('CACGMM._predict', f'cacgmm-predict {int(eps != 0)} {fb([eps])} {T(m0.weight)} {TC(c0.covariance_eigenvectors)} '
                 f'{T(c0.covariance_eigenvalues)} {TC(y2)}', [a2, q2], f'model of one M-step, y {y2.shape}, K={K}, eps={eps}',
                 {**data, 'y2': y2}, rtol=min(1e-9 * max(1.0, cond_of(m0)), 1e-4))
-            n = int(rng.integers(0, 2)) if tiny_case else int(rng.integers(0, 3))
+            if tiny_case:
+                # the loop body `cacgmmStep` as defined (E-step then M-step, nothing stored in between) from the code's own model
+                a1, q1, _ = m0._predict(yn, affiliation_eps=eps)
+                m1 = CACGMM_.CACGMMTrainer()._m_step(yn, q1, affiliation=a1, saliency=sal, hermitize=herm,
+                                                     covariance_norm='eigenvalue', eigenvalue_floor=floor, weight_constant_axis=wca)
+                c1 = max(cond_of(m0), cond_of(m1))
+                add('CACGMMTrainer.fit[loop body]', f'cacgmm-step {int(herm)} {int(sal is not None)} {int(eps != 0)} '
+                    f'{fb([eps, 1e-10, floor])} {T(m0.weight)} {TC(c0.covariance_eigenvectors)} {T(c0.covariance_eigenvalues)} {TC(yn)}'
+                    + opt(sal), fields_of(m1), f'y {y.shape}, K={K}, hermitize={herm}, floor={floor}, eps={eps}', data,
+                    rtol=min(1e-8 * max(1.0, c1), 1e-4), raw=[False, True, False], canon=canon_c)
+            # (the function-valued recursion `cacgmmTrainerFit` itself is affordable for ONE iteration only: 20..160 s for two)
+            n = 0 if tiny_case else int(rng.integers(0, 3))
             init_b = init
             if rng.random() < 0.3:          # singleton leading axes of the initial affiliation (np.broadcast_to in fit)
                 keep = tuple(slice(0, 1) if rng.random() < 0.6 else slice(None) for _ in lead)
